@@ -46,6 +46,13 @@ DIRECTED = {
         "main": "(define t1 (spawn-native-thread (lambda () (churn 400 20)))) (spin 30000) (thread-join! t1)",
         "irq": {"after": {"ev": "CTRL_RESUME", "who": "T1", "tgt": "T0", "n": 2}},
     },
+    # a spawned thread finishes while a collector is already waiting for it to publish its context: the
+    # collector must notice the exit (the exit is held until the collector has announced that it waits)
+    "exit_during_wait": {
+        "main": "(define ch (channels/new)) (define t1 (spawn-native-thread (lambda () (channel/recv (channels-receiver ch)) 'done))) "
+                "(channel/send (channels-sender ch) 1) (spin 300) (#%gc-collect) (#%gc-collect) (thread-join! t1)",
+        "barriers": [{"hold": {"ev": "THREAD_EXIT", "who": "T1"}, "until": {"ev": "ENUM_WAIT", "tgt": "T1"}, "timeout_ms": 5000, "max": 1}],
+    },
     "idle_engine": {
         "main": "(define t1 (spawn-native-thread (lambda () (churn 2000 50)))) 'returned",
         "await_threads": True,
